@@ -364,7 +364,7 @@ func (continueStream) Read(p []byte) (int, error) {
 
 // batchTimeout is a watchdog only: an item cut by it is inconclusive, never a
 // verdict.
-const batchTimeout = 15 * time.Minute
+const batchTimeout = 40 * time.Minute
 
 // Batch runs the items (all of one configuration) in one worker process and
 // returns the raw result per item id. If the process dies part-way the item
@@ -523,7 +523,7 @@ func splitMarked(s string) (map[int]*marked, int) {
 }
 
 // freshTimeout is a watchdog only.
-const freshTimeout = 3 * time.Minute
+const freshTimeout = 20 * time.Minute
 
 // Fresh runs one ego command line in a new process of the plain binary.
 func (r *Runner) Fresh(args []string, continues bool) *Raw {
